@@ -704,3 +704,128 @@ Proof.
   induction l as [|o l IH]; intro p; cbn [chainb]; [tauto|].
   rewrite andb_true_iff, pair_okb_spec, IH. tauto.
 Qed.
+
+(* ---------- every await (ServiceRunner and StateWatcher) returns ---------- *)
+Lemma settled_acond : forall k c, settled k c = true -> acond k c = true.
+Proof. destruct k, c; cbn; intro H; try reflexivity; discriminate. Qed.
+
+Lemma settled_fwd : forall k c c', settled k c = true -> fwdb c c' = true -> settled k c' = true.
+Proof. destruct k, c, c'; cbn; intros; try reflexivity; discriminate. Qed.
+
+Definition is_aw (i : nat) (o : op) : bool :=
+  match o with OAw j => Nat.eqb i j | _ => false end.
+
+Lemma aw_step_exact : forall s o i a, nth_error (aws s) i = Some a ->
+  nth_error (aws (step41 s o)) i =
+  Some (if is_aw i o then astep (cell s) (ver s) a else a).
+Proof.
+  intros s o i a Hn. destruct o; unfold step41; cbn [is_aw].
+  - destruct (sstate_eqb (cell s) NotStarted); exact Hn.
+  - destruct (cell s); exact Hn.
+  - exact Hn.
+  - exact Hn.
+  - cbn [aws]. rewrite nth_error_app1; [exact Hn|]. apply nth_error_Some. congruence.
+  - destruct (Nat.eqb_spec i i0) as [<-|Hne].
+    + rewrite Hn. cbn [aws]. eapply nth_set_nth41_same; eauto.
+    + destruct (nth_error (aws s) i0); cbn [aws]; [|exact Hn].
+      rewrite nth_set_nth41_other; auto.
+Qed.
+
+Lemma count_aw_cons : forall i o ops,
+  count_aw i (o :: ops) = (if is_aw i o then 1 else 0) + count_aw i ops.
+Proof. intros. destruct o; reflexivity. Qed.
+
+Definition aw_left (a : awaiter) : nat :=
+  match a_pc a with ADone _ => 0 | ACheck => 1 | AWaitChg => 2 end.
+
+Lemma astep_progress : forall c v a, aw_inv c v a -> settled (a_kind a) c = true ->
+  aw_left (astep c v a) <= aw_left a - 1.
+Proof.
+  intros c v a (H1 & H2 & H3) Hs. apply settled_acond in Hs.
+  unfold aw_left, astep. destruct (a_pc a) eqn:Ep.
+  - rewrite Hs. cbn. lia.
+  - destruct (Nat.eqb_spec v (a_seen a)) as [He|He].
+    + symmetry in He. specialize (H2 eq_refl He). congruence.
+    + cbn. lia.
+  - rewrite Ep. lia.
+Qed.
+
+Lemma awaiter_returns_gen : forall ops s i a, Inv s ->
+  nth_error (aws s) i = Some a -> settled (a_kind a) (cell s) = true ->
+  aw_left a <= count_aw i ops ->
+  exists a' r, nth_error (aws (run41 s ops)) i = Some a' /\ a_kind a' = a_kind a /\
+               a_pc a' = ADone r /\ acond (a_kind a) r = true.
+Proof.
+  induction ops as [|o ops IH]; intros s i a Hi Hn Hs Hc.
+  - cbn in Hc. unfold aw_left in Hc. destruct (a_pc a) as [| |r] eqn:Ep; try lia.
+    exists a, r. repeat split; auto.
+    destruct Hi as (_ & _ & _ & _ & _ & Ha). rewrite Forall_forall in Ha.
+    destruct (Ha a (nth_error_In _ _ Hn)) as (_ & _ & H3). apply (H3 r Ep).
+  - cbn [run41 fold_left]. rewrite count_aw_cons in Hc.
+    pose proof (aw_step_exact s o i a Hn) as Hn'.
+    assert (Hinv : aw_inv (cell s) (ver s) a).
+    { destruct Hi as (_ & _ & _ & _ & _ & Ha). rewrite Forall_forall in Ha.
+      apply Ha. eapply nth_error_In; eauto. }
+    set (a1 := if is_aw i o then astep (cell s) (ver s) a else a) in *.
+    assert (Hk : a_kind a1 = a_kind a).
+    { unfold a1. destruct (is_aw i o); [apply astep_kind|reflexivity]. }
+    assert (Hs' : settled (a_kind a1) (cell (step41 s o)) = true).
+    { rewrite Hk. eapply settled_fwd; [exact Hs|apply fwd_step]. }
+    assert (Hc' : aw_left a1 <= count_aw i ops).
+    { unfold a1. destruct (is_aw i o).
+      - pose proof (astep_progress _ _ _ Hinv Hs). lia.
+      - lia. }
+    destruct (IH _ i a1 (Inv_step _ o Hi) Hn' Hs' Hc') as (a' & r & G1 & G2 & G3 & G4).
+    exists a', r. unfold run41 in *. repeat split; auto; congruence.
+Qed.
+
+Lemma every_await_returns_all : forall s ops i a, reachable s ->
+  nth_error (aws s) i = Some a -> settled (a_kind a) (cell s) = true ->
+  2 <= count_aw i ops ->
+  exists a' r, nth_error (aws (run41 s ops)) i = Some a' /\ a_kind a' = a_kind a /\
+               a_pc a' = ADone r /\ acond (a_kind a) r = true.
+Proof.
+  intros s ops i a Hr Hn Hs Hc. apply reachable_Inv in Hr.
+  apply awaiter_returns_gen; auto. unfold aw_left. destruct (a_pc a); lia.
+Qed.
+
+(* ---------- HISTORY (not the current code) ----------
+   Before the `fix:` commit in /repo, StateWatcher::wait_stopping_or_stopped was
+       let state = self.borrow().clone();
+       while !(state.stopped() || state.stopping()) { self.changed().await?; }
+       Ok(())
+   i.e. the state was read ONCE, before the loop.  The program below is that old code; called
+   while the cell is Started it never returns, whatever happens to the cell afterwards (witness:
+   Started -> Stopping -> Stopped).  Reproduced on the real crate by ./check C41 (input
+   (0 (0) 0 (0 2 7 1 2 2)): the future is still pending with the state Stopping / Stopped). *)
+Inductive old_pc := OldRead | OldTest (latched : bool) | OldWait (latched : bool) | OldDone.
+
+Definition old_step (c : sstate) (v : nat) (st : old_pc * nat) : old_pc * nat :=
+  match fst st with
+  | OldRead => (OldTest (acond AWaitStopping c), snd st)
+  | OldTest true => (OldDone, snd st)
+  | OldTest false => (OldWait false, snd st)
+  | OldWait l => if Nat.eqb v (snd st) then st else (OldTest l, v)
+  | OldDone => st
+  end.
+
+Definition old_run (st : old_pc * nat) (cvs : list (sstate * nat)) : old_pc * nat :=
+  fold_left (fun st cv => old_step (fst cv) (snd cv) st) cvs st.
+
+Lemma old_wait_stopping_never_returns : forall cvs st,
+  fst st = OldTest false \/ fst st = OldWait false ->
+  fst (old_run st cvs) <> OldDone.
+Proof.
+  induction cvs as [|[c v] cvs IH]; intros [p seen] H; cbn [old_run fold_left fst snd] in *.
+  - destruct H as [H|H]; rewrite H; discriminate.
+  - apply IH. unfold old_step; cbn [fst snd]. destruct H as [H|H]; rewrite H.
+    + right. reflexivity.
+    + destruct (Nat.eqb v seen); cbn [fst]; [right|left]; reflexivity.
+Qed.
+
+Example old_wait_stopping_witness :
+  (* called while Started (version 2), then stop is requested and the service stops *)
+  fst (old_run (OldRead, 2)
+               [(Started, 2); (Started, 2); (Stopping, 3); (Stopping, 3); (Stopped, 4);
+                (Stopped, 4); (Stopped, 4)]) = OldWait false.
+Proof. reflexivity. Qed.
